@@ -354,10 +354,17 @@ func (lb *litBuilder) conv(t types.Type, lit string) string {
 }
 
 // tryReplay attempts to replay the model of a refuted obligation on the real code.
-func tryReplay(e *Engine, r *FuncResult, ob *Obligation) (string, bool) {
+func tryReplay(e *Engine, r *FuncResult, ob *Obligation) (rp string, confirmed bool) {
 	if ob.Status != "refuted" || ob.File == "" {
 		return "", false
 	}
+	// building a replay is best effort: a model the literal builder cannot turn into Go values
+	// must not take the check down (the violation is then reported without a replayed input)
+	defer func() {
+		if x := recover(); x != nil {
+			rp, confirmed = fmt.Sprintf("replay could not be built: %v", x), false
+		}
+	}()
 	fn, ok := e.funcs[r.Key]
 	if !ok || fn.Parent() != nil {
 		return "", false
